@@ -2,6 +2,7 @@ package c12
 
 import (
 	"sort"
+	"strings"
 
 	"verif/harness/internal/hx"
 )
@@ -55,7 +56,30 @@ func has(xs []string, s string) bool {
 	return false
 }
 
+// normHooks reads the annotations the way they are documented: the hook and
+// the hook-delete-policy annotations are comma separated lists whose elements are
+// taken without surrounding white space and without regard to case.
+func normHooks(hooks []hx.HookSpec) []hx.HookSpec {
+	norm := func(xs []string) []string {
+		if xs == nil {
+			return nil
+		}
+		out := make([]string, len(xs))
+		for i, x := range xs {
+			out[i] = strings.ToLower(strings.TrimSpace(x))
+		}
+		return out
+	}
+	out := make([]hx.HookSpec, len(hooks))
+	for i, h := range hooks {
+		h.Events, h.Policies = norm(h.Events), norm(h.Policies)
+		out[i] = h
+	}
+	return out
+}
+
 func refOp(kind string, hooks []hx.HookSpec, disabled bool, f *refFault, present map[string]bool) refResult {
+	hooks = normHooks(hooks)
 	var r refResult
 	occ := map[string]int{}
 	hit := func(verb, h string) bool {
